@@ -100,8 +100,6 @@ def run_property(pid, tier, seed):
                 covers_ok += 1
             else:
                 engine_errors.append(f'vacuity: cover `{label}` not satisfiable (contradictory assumptions?)')
-        if r.get('unreached'):
-            engine_errors.append(f'vacuity: statements of {u.qual} at lines {r["unreached"]} lie on no feasible path (dead under the contract?)')
         for want in getattr(u, 'expected_exits', ()):
             key = f'{u.qual}: exit:{want}'
             if r['status'] == 'ok' and key not in r['covers']:
@@ -118,6 +116,18 @@ def run_property(pid, tier, seed):
         if sv.check() == z3.unsat:
             vac += 1
             engine_errors.append(f'vacuity: hypotheses of `{o.name}` are unsatisfiable')
+
+    # statement coverage per function, union over the units (variants) that verify it
+    cov = {}
+    for u, r in unit_results:
+        if r['status'] == 'ok' and 'want_lines' in r:
+            w, g = cov.setdefault((u.file, u.qual), (set(), set()))
+            w.update(r['want_lines'])
+            g.update(r['reached_lines'])
+    for (f_, q_), (w, g) in cov.items():
+        miss = sorted(w - g)
+        if miss:
+            engine_errors.append(f'vacuity: statements of {q_} at lines {miss} lie on no feasible path of any unit (dead under the contract?)')
 
     failed = [o for o in asserts if o.result == 'failed']
     undec_obls = [o for o in asserts if o.result == 'undecided']
